@@ -307,3 +307,75 @@ def gen_frontend_case(rng, cid):
             "structure": {"numbers": num, "positions": pos, "cell": cell, "pbc": pbc},
             "params": {"seed": rng.randrange(100)}, "meta": {"kind": "frontend", "zero": zero, "pbc": pbc},
             "time_limit": 60}
+
+
+def reuse_stream(rng, quick):
+    """History stream shared by C01 and C13: sequences of get_clusters calls on ONE SBC instance -- the same atoms with
+    another periodicity, the same atoms with other radii / thresholds, then the examined call.  Returns (cases, rows);
+    a row carries same_as_fresh (answer equals that of a fresh SBC()), dim_mismatch / prior_dim_mismatch (C13 predicate)."""
+    from lib import common as C
+    n_reuse = 40 if quick else 240
+    rcases = []
+
+    def radii_choice(rng, n, numbers):
+        from ase.data import covalent_radii
+        k = rng.random()
+        if k < 0.3:
+            return "covalent"
+        if k < 0.5:
+            return "vdw"
+        if k < 0.6:
+            return "vdw_covalent"
+        f = rng.choice([0.6, 0.8, 1.3, 1.6, 1.9])
+        return {"array": [round(float(covalent_radii[z]) * f, 4) for z in numbers]}
+
+    def crystallite_with_satellites(rng):
+        """finite fcc/sc/bcc block in a large box plus 1-3 atoms on lattice sites 1-2 shells outside: bonded to the
+        block under large radii, not under small ones (cleaning and connectivity depend on the radii of the call)"""
+        from ase.build import bulk
+        from ase.data import covalent_radii
+        import numpy as _np
+        sym, lat = rng.choice([("Cu", "fcc"), ("Al", "fcc"), ("Fe", "bcc"), ("Ni", "fcc"), ("W", "bcc")])
+        a = {"Cu": 3.6, "Al": 4.05, "Fe": 2.87, "Ni": 3.52, "W": 3.16}[sym]
+        blk = bulk(sym, lat, a=a, cubic=True) * (rng.choice([2, 3]), rng.choice([2, 3]), rng.choice([2, 3]))
+        pos = blk.get_positions().tolist()
+        num = blk.get_atomic_numbers().tolist()
+        P = _np.array(pos)
+        corner = P[int(_np.argmax(P @ _np.array([rng.choice([-1, 1]), rng.choice([-1, 1]), rng.choice([-1, 1])])))]
+        for _ in range(rng.randint(1, 3)):
+            v = _np.array([rng.choice([-1, 0, 1, 1]), rng.choice([-1, 0, 1, 1]), rng.choice([0, 0.5, 1])]) * a
+            q = corner + _np.sign(corner - P.mean(axis=0) + 1e-9) * _np.abs(v)
+            if _np.min(_np.linalg.norm(P - q, axis=1)) > 0.9 * a / 2 ** 0.5:
+                pos.append([float(x) for x in q])
+                num.append(num[0])
+        P = _np.array(pos)
+        P = P - P.min(axis=0) + 8.0
+        L = P.max(axis=0) + 8.0
+        pbc = rng.choice([[False, False, False], [True, True, True], [True, True, False]])
+        return {"numbers": [int(z) for z in num], "positions": [[round(float(x), 6) for x in r] for r in P],
+                "cell": [[float(L[0]), 0, 0], [0, float(L[1]), 0], [0, 0, float(L[2])]], "pbc": pbc}, {"kind": "crystallite+satellites", "n": len(num)}
+
+    for k in range(n_reuse):
+        if k % 2 == 0:
+            st, meta = crystallite_with_satellites(rng)
+        else:
+            st, meta = gen_structure(rng, 60 if quick else 120, kinds=["defective", "crystal", "two", "molecules"])
+        if not any(st["pbc"]):
+            alt = [True, True, True]
+        else:
+            alt = [not b for b in st["pbc"]] if not all(st["pbc"]) else [False, False, False]
+        nums = st["numbers"]
+        kw = {"bond_threshold": rng.choice([0.5, 0.65, 0.9]), "seed": 7, "radii": radii_choice(rng, len(nums), nums)}
+        prior = []
+        for _ in range(rng.randint(0, 2)):
+            pk = {"bond_threshold": rng.choice([0.5, 0.65, 0.9]), "seed": 7, "radii": radii_choice(rng, len(nums), nums)}
+            if not isinstance(pk["radii"], str) or pk["radii"] != "covalent":
+                pk["overlap_threshold"] = -3.0
+            prior.append(pk)
+        if not isinstance(kw["radii"], str) or kw["radii"] != "covalent":
+            kw["overlap_threshold"] = -3.0
+        rcases.append({"id": k, "structure": st, "alt_pbc": alt, "kwargs": kw, "prior": prior, "meta": meta})
+    chunks = [rcases[i::8] for i in range(8)]
+    routs = C.impl_run_parallel("sbc_reuse_impl", [{"cases": ch} for ch in chunks if ch], jobs=8)
+    rrows = [r for o in routs for r in o["rows"]]
+    return rcases, rrows
